@@ -181,7 +181,7 @@ def run(tier):
     return rep.finish()
 
 
-def judge(rep, recs, meta, wd, D, prop_filter=("C07", "C18")):
+def judge(rep, recs, meta, wd, D, prop_filter=("C07",)):
     jin, jout = os.path.join(wd, "judge_in.ndjson"), os.path.join(wd, "judge_out.ndjson")
     core.write_ndjson(jin, recs)
     res = core.tlc("Judge_Driver", "Judge_Driver.cfg", workers=1, env={"JUDGE_IN": jin, "JUDGE_OUT": jout},
